@@ -64,8 +64,36 @@ theorem rawtext_no_linebreak_identity (s : Bytes) (h : hasNL s = false) :
             have := ih p hts hn.2
             simp only [renderRest, flat] at this ⊢
             simp [innerWs, hn.1, this]
+  have keyO : ∀ (toks : List Tok), WF toks → hasNL (flat toks) = false → renderRestO false none toks = flat toks := by
+    intro toks wf hn
+    cases toks with
+    | nil => rfl
+    | cons t ts =>
+      cases t with
+      | chunk c =>
+        have hts : WF ts := by
+          cases ts with
+          | nil => trivial
+          | cons t2 ts2 => cases t2 <;> simp_all [WF]
+        simp only [flat, hasNL_append, Bool.or_eq_false_iff] at hn
+        simp [renderRestO, flat, key ts (lastByte c) hts hn.2]
+      | ws w =>
+        simp only [flat, hasNL_append, Bool.or_eq_false_iff] at hn
+        cases ts with
+        | nil => simp [renderRestO, flat, edgeWs, hn.1]
+        | cons t2 ts2 =>
+          cases t2 with
+          | ws w2 => simp [WF] at wf
+          | chunk c =>
+            have hts : WF ts2 := by
+              simp [WF] at wf
+              cases ts2 with
+              | nil => trivial
+              | cons t3 ts3 => cases t3 <;> simp_all [WF]
+            simp only [flat, hasNL_append, Bool.or_eq_false_iff] at hn
+            simp [renderRestO, flat, hn.1, key ts2 (lastByte c) hts hn.2.2]
   unfold joinLines
-  rw [render_false false _ (tokenize_wf s), key _ 0 (tokenize_wf s) (by rw [hf]; exact h), hf]
+  rw [render_false false _ (tokenize_wf s), keyO _ (tokenize_wf s) (by rw [hf]; exact h), hf]
 
 /-- The result never exceeds the input (the Go code allocates exactly len(s) bytes
     for it and would otherwise write past the buffer). -/
@@ -80,5 +108,9 @@ theorem rawtext_in_bounds (s : Bytes) (tb ta : Bool) :
 example : rawtext [32, 97, 32, 10, 32, 32, 98, 32] false false = some [32, 97, 32, 98, 32] := by decide
 example : rawtext [60, 97, 62, 10, 32, 60, 98, 62] true false = some [60, 97, 62, 60, 98, 62] := by decide
 example : joinLines [97, 10, 98] false false = [97, 32, 98] := by decide
+/- a NUL is an ordinary character (/repo 4eb5547): `a\x00⏎  b` is joined WITH a space, and so is `a⏎\x00b` -/
+example : rawtext [97, 0, 10, 32, 32, 98] false false = some [97, 0, 32, 98] := by decide
+example : rawtext [97, 10, 0, 98] false false = some [97, 32, 0, 98] := by decide
+example : joinLines [97, 0, 10, 32, 32, 98] false false = [97, 0, 32, 98] := by decide
 
 end SoyVerif.Props.C15
